@@ -136,6 +136,21 @@ def make_dim_fn(es, use):
     import jax.numpy as jnp
     from jax import core
 
+    def fn_img(x):
+        # symbolic height/width of an image input that is exposed in NCHW layout (inputs_as_nchw)
+        env = {"B": x.shape[1], "N": x.shape[2]}
+        mx = lambda a, b: core.max_dim(a, b) if not (isinstance(a, int) and isinstance(b, int)) else max(a, b)
+        mn = lambda a, b: core.min_dim(a, b) if not (isinstance(a, int) and isinstance(b, int)) else min(a, b)
+        outs = [jnp.asarray(dexpr_eval(e, env, mx, mn)) for e in es]
+        if use == "nchw_bcast":
+            outs.append(jnp.broadcast_to(x.sum(axis=(0, 2, 3))[:, None], (x.shape[1], 3)) + 1.0)
+        else:
+            outs.append(x.sum(axis=(1, 2)))
+        return tuple(outs)
+
+    if use.startswith("nchw"):
+        return fn_img
+
     def fn(x, y):
         env = {"B": x.shape[0], "N": y.shape[0]}
         mx = lambda a, b: core.max_dim(a, b) if not (isinstance(a, int) and isinstance(b, int)) else max(a, b)
@@ -168,8 +183,9 @@ def check_dim_case(es, use, acc=None, bindings=PAIRS):
     out = []
     fn = make_dim_fn(es, use)
     case = {"kind": "dimexpr", "es": es, "use": use}
+    img = use.startswith("nchw")
     try:
-        model = jaxutil.to_onnx(fn, [("B", 3), ("N", 3)])
+        model = jaxutil.to_onnx(fn, [("K", "B", "N", 3)], inputs_as_nchw=[0]) if img else jaxutil.to_onnx(fn, [("B", 3), ("N", 3)])
     except Exception as e:
         if acc:
             acc.tally("dim_status", "export_rejected")
@@ -185,13 +201,15 @@ def check_dim_case(es, use, acc=None, bindings=PAIRS):
     for B, N in bindings:
         x = (np.arange(B * 3, dtype=np.float32).reshape(B, 3) - 1) * 0.5
         y = np.arange(N * 3, dtype=np.float32).reshape(N, 3) * 0.25 + 1
+        if img:
+            ximg = (np.arange(2 * B * N * 3, dtype=np.float32).reshape(2, B, N, 3) * 0.01 - 0.2)
         try:
-            exp = jaxutil.flatten(fn(x, y))
+            exp = jaxutil.flatten(fn(ximg) if img else fn(x, y))
         except Exception:
             if acc:
                 acc.tally("dim_status", "jax_rejects_binding")
             continue
-        feeds = dict(zip(ins, [x, y]))
+        feeds = {ins[0]: np.transpose(ximg, (0, 3, 1, 2))} if img else dict(zip(ins, [x, y]))
         binding_class = "one" if 1 in (B, N) else ("equal" if B == N else ("large" if max(B, N) > 5 else "unequal"))
         try:
             got = sess.run(None, feeds)
@@ -237,7 +255,7 @@ def _work_dim(sh, acc):
     @settings(max_examples=sh["examples"], deadline=None, database=None, suppress_health_check=list(HealthCheck),
               phases=[Phase.generate], report_multiple_bugs=False)
     @given(st.lists(dexpr_strategy(), min_size=1, max_size=3),
-           st.sampled_from(["value", "reshape", "arange", "broadcast", "outer", "flatten", "concat", "zeros"]))
+           st.sampled_from(["value", "value", "reshape", "arange", "broadcast", "outer", "flatten", "concat", "zeros", "nchw_value", "nchw_bcast"]))
     def t(es, use):
         if not any(dexpr_uses(e, "B") or dexpr_uses(e, "N") for e in es):
             acc.count("trivial_const")
